@@ -149,6 +149,17 @@ def gen_cases(rng, tier):
                 zi.external_attr = rng.choice([0o100644, 0o100755, 0o120777, 0o40755]) << 16
                 z.writestr(zi, rng.randbytes(rng.choice([0, 5, 500])))
         add(bio.getvalue(), e, ["python-zipfile"], None, file_mtime=e + 5)
+    # members larger than any plausible copy buffer, of sizes that are no multiple of one, with members after them
+    for method in (zipfile.ZIP_STORED, zipfile.ZIP_DEFLATED):
+        bio = io.BytesIO()
+        e = EPOCHS[2]
+        with zipfile.ZipFile(bio, "w", method) as z:
+            for i, size in enumerate((10, 200001, 3, 131073 + 4097, 7)):
+                dt = datetime.datetime.utcfromtimestamp(e + (10 ** 6 if i % 2 else -10 ** 6))
+                zi = zipfile.ZipInfo("big/%d.bin" % i, date_time=(dt.year, dt.month, dt.day, dt.hour, dt.minute, dt.second))
+                zi.external_attr = 0o100644 << 16
+                z.writestr(zi, bytes((k * 13 + k // 255) % 256 for k in range(size)))
+        add(bio.getvalue(), e, ["big-members"], None, file_mtime=e + 5)
     # outside the class / malformed: the crate must fail cleanly
     base, _ = build_zip(rng, 1577836800, {})
     for k in (0, 1, 10, 21, 22, len(base) // 2, len(base) - 1):
